@@ -7,7 +7,7 @@ from ..gen import J, JI
 from . import lincommon as lc
 
 PROP = "C13"
-HOSTILE = ('scale', 'mean')
+HOSTILE = ('scale', 'mean', 'special')
 MONITORS = ("WF", "DENS")
 ANCHORS = [("pdf.py", "GaussianPDF.entropy"), ("pdf.py", "GaussianPDF.kl_divergence"),
            ("conditional.py", "ConditionalGaussianPDF.conditional_entropy"),
@@ -142,6 +142,8 @@ def run_cond(cell, rec, seed):
             rec.count("out_of_domain")
             continue
         rng, c, tc, kw, p, tp, tj, info, att = st
+        if not zero and "M" in tc and not np.any(tc.M):
+            zero = True  # the special-value regime zeroed the only row / column of the map
         info["zero_M"] = zero
         R = Rc * Rx
         rec.cell([ck, Dx, Dy, Rc, Rx, zero], True)
